@@ -13,6 +13,14 @@ on the hub (`add` / `remove`) is ONE step that changes side `A` of EVERY link; e
 (`link i o`: a directive change on spoke `i`, a loop iteration of either end of link `i`, a
 delivery, an open, an arrival) touches link `i` only. Nothing else is shared: in particular no
 state computed for one link (an entry list, a hash list) is ever used for another.
+
+PARALLEL links (two links between the same two nodes) are two indices whose configurations name
+the same peers and whose spoke side carries the same directive changes: the one directive change
+of the remote node is `link i (add .B d)` for every such `i` (`Props.C30Hub.parallel_links_share_dirs`).
+A link that is REMOVED and RE-ESTABLISHED is a new index as well: `removeLink` drops the
+`linkState` and ends its loop (the index takes no further step), `addLink` allocates a fresh one
+(same uuid, session id and `localIsLower` recomputed, `matched` empty) — an index on which nothing
+but the two nodes' directive changes has happened until it comes up (`Props.C30Hub.relinked_is_fresh`).
 -/
 namespace Bifrost
 namespace SolicitHub
